@@ -2,7 +2,7 @@ use std::convert::TryFrom;
 
 use crate::check::constrain::constraint::builder::ConstrBuilder;
 use crate::check::constrain::constraint::expected::Expected;
-use crate::check::constrain::constraint::Constraint;
+use crate::check::constrain::constraint::{Constraint, MapExp};
 use crate::check::constrain::generate::collection::constr_col_lookup;
 use crate::check::constrain::generate::env::Environment;
 use crate::check::constrain::generate::{generate, Constrained};
@@ -66,23 +66,22 @@ pub fn gen_flow(
             constr.branch_point();
             let then_env = generate(then, env, ctx, constr)?;
             if env.is_expr {
-                constr.add(
-                    "then branch equal to if",
-                    &if_expr_exp,
-                    &Expected::from(then),
-                    env,
-                );
+                // names in a branch are those of the scope at its end, not of the enclosing one
+                let then_exp =
+                    Expected::from(then).map_exp(&then_env.var_mapping, &constr.var_mapping);
+                let if_exp = if_expr_exp.map_exp(&env.var_mapping, &constr.var_mapping);
+                let constraint = Constraint::new("then branch equal to if", &if_exp, &then_exp);
+                constr.add_constr_map(&constraint, &env.var_mapping, true);
             }
 
             constr.branch("if else branch", el.pos);
             let else_env = generate(el, env, ctx, constr)?;
             if env.is_expr {
-                constr.add(
-                    "else branch equal to if",
-                    &if_expr_exp,
-                    &Expected::from(el),
-                    env,
-                );
+                let else_exp =
+                    Expected::from(el).map_exp(&else_env.var_mapping, &constr.var_mapping);
+                let if_exp = if_expr_exp.map_exp(&env.var_mapping, &constr.var_mapping);
+                let constraint = Constraint::new("else branch equal to if", &if_exp, &else_exp);
+                constr.add_constr_map(&constraint, &env.var_mapping, true);
             }
 
             constr.reset_branches();
